@@ -63,6 +63,44 @@ def ev(tree, env):
     raise ValueError(k)
 
 
+def tree_features(tree, seed=0):
+    """Structural facts about an expression tree that known findings are keyed on (never the case tag):
+       nested_same_function: functions that occur inside one of their own arguments (at any depth);
+       const_call_funcs:     function calls all of whose arguments are numerically constant (independent of every variable)."""
+    import random as _random
+    names = sorted(free_vars(tree) - {"pi", "E"})
+    rnd = _random.Random(seed)
+    envs = [{n: rnd.uniform(0.3, 1.7) * rnd.choice((-1, 1)) for n in names} for _ in range(3)]
+    nested, const_calls = set(), set()
+
+    def is_const(sub):
+        try:
+            vals = [ev(sub, e) for e in envs]
+        except Exception:
+            return False
+        return all(abs(v - vals[0]) <= 1e-12 * max(1.0, abs(vals[0])) for v in vals)
+
+    def walk(t, inside):
+        if not isinstance(t, list) or not t:
+            return
+        if t[0] == "call":
+            if t[1] in inside:
+                nested.add(t[1])
+            if all(is_const(a) for a in t[2:]):
+                const_calls.add(t[1])
+            for a in t[2:]:
+                walk(a, inside | {t[1]})
+        elif t[0] in ("num", "var", "past"):
+            return
+        elif t[0] == "pow":
+            walk(t[1], inside)
+        else:
+            for a in t[1:]:
+                walk(a, inside)
+    walk(tree, frozenset())
+    return dict(nested_same_function=sorted(nested), const_call_funcs=sorted(const_calls))
+
+
 def free_vars(tree, out=None):
     out = set() if out is None else out
     if tree[0] == "var":
